@@ -531,7 +531,7 @@ fn parse_lzma_fields<const CLASS: usize>() {
     forget(dec);
 }
 
-//@ harness props=C02,C17 tier=quick unwind=8 unwindset=process_mode:4,default_read_exact:4 mem_gb=10 timeout=900 native=no
+//@ harness props=C02,C17,C11 tier=quick unwind=8 unwindset=process_mode:4,default_read_exact:4 mem_gb=10 timeout=900 native=no
 //@ bound: parse_lzma directly, class 0 (no reset), symbolic 21-bit uncompressed-size field, one abstract symbol
 #[cfg_attr(kani, kani::proof)]
 #[cfg_attr(kani, kani::stub(std::fmt::format, crate::verif_common::stub_format))]
@@ -554,7 +554,7 @@ pub fn lzma2_parse_lzma_fields_c2() {
 }
 
 
-//@ harness props=C02,C17,C07 tier=quick unwind=8 unwindset=process_mode:4,default_read_exact:4 mem_gb=10 timeout=900 native=no
+//@ harness props=C02,C17,C07,C11 tier=quick unwind=8 unwindset=process_mode:4,default_read_exact:4 mem_gb=10 timeout=900 native=no
 //@ bound: parse_lzma directly, class 1, SYMBOLIC 16-bit compressed-size field (payload really needs 6 bytes: preamble + one 1-byte symbol), declared uncompressed size 1
 #[cfg_attr(kani, kani::proof)]
 #[cfg_attr(kani, kani::stub(std::fmt::format, crate::verif_common::stub_format))]
